@@ -51,7 +51,7 @@ func (arbWitness) Update(ctx context.Context, logID string, oldSize uint64, newC
 func VerifServeArbitraryBody() {
 	rt.InstallMetrics()
 	origin, id := rt.Str("origin"), rt.Str("id")
-	logs := []config.Log{{ID: id, Origin: origin, Verifier: &rt.Verifier{K: rt.U64("logkey"), N: origin}}}
+	logs := []config.Log{{ID: id, Origin: origin, Verifier: &rt.Verifier{K: rt.U64("logkey"), N: rt.Str("keyname")}}}
 	h := VerifNewHandler(arbWitness{}, logs, &rt.Verifier{K: rt.U64("wkey"), N: "witness"})
 	body := rt.Str("body")
 	rt.Assume(rt.LenLE(body, rt.Param("maxbody", 4000)))
